@@ -253,6 +253,20 @@ func TestCheck(t *testing.T) {
 		judge(r, "mut", -1, x)
 		prev = w
 	}
+	// (3b) committed corpus (grown at development time with the same oracle as fuzz body): replay + mutants
+	corp := mon.Corpus("v6")
+	for i, b := range corp {
+		if !r.Mine(i) {
+			continue
+		}
+		judge(r, "corpus", -1, b)
+		rng := r.Rand("corpus", i)
+		lf := ref6.Decode(b).LenFields
+		for k := 0; k < r.Pick(3, 40); k++ {
+			judge(r, "corpus-mut", -1, gen6.Mutate(rng, b, lf, nil))
+		}
+	}
+	r.Set("corpus_entries", len(corp))
 	// (4) ParseOption directly: every typed code x every payload length 0..64
 	nr := r.Pick(30, 600)
 	k := 0
